@@ -817,6 +817,8 @@ class Interp:
         return T.cmp("==", x, y)
 
     def contains(self, container, x):
+        if isinstance(x, (Builtin, FuncVal, TypeRef, ClassRef, EnumVal)) and isinstance(container, (list, tuple)):
+            return any((e is x) or (isinstance(e, Builtin) and isinstance(x, Builtin) and e.name == x.name) or (isinstance(e, EnumVal) and e == x) for e in container)
         if isinstance(container, (list, tuple)):
             return T.Or(*[self._elem_eq(x, e) if not isinstance(e, str) and not isinstance(x, str) else (x == e) for e in container])
         if isinstance(container, dict):
